@@ -478,6 +478,20 @@ func runC20(r *ev.Run) {
 			r.Fail("feistel", c20Case{Kind: "feistel", Bits: bits, Seed: seed}, "%s", msg)
 		}
 	})
+	// everything below walks cycles of feistel until it lands inside [0,n): with a feistel that is not a bijection
+	// that walk need not end, so the verdict on feistel is final and nothing downstream is attempted
+	var parts atomic.Int64
+	var files, ranges, refill int64
+	if r.Failed() {
+		r.Assume("feistel is not a bijection: the checks that rely on the termination of the cycle walk (shuffleIndex, files) were not run")
+		r.Cut()
+	} else {
+		files, ranges, refill = c20Downstream(r, &perms, &points, &parts)
+	}
+	c20Summary(r, &perms, &points, &parts, files, ranges, refill)
+}
+
+func c20Downstream(r *ev.Run, perms, points, parts *atomic.Int64) (files, ranges, refill int64) {
 	// shuffleIndex is a permutation of [0,n) for EVERY n up to the bound
 	maxN := ev.Pick(r, 3000, 32768)
 	ev.Parallel(maxN, func(wk, item int) {
@@ -513,7 +527,6 @@ func runC20(r *ev.Run) {
 		}
 	})
 	// Batches / Chunks partitions
-	var parts atomic.Int64
 	maxB := ev.Pick(r, 250000, 400000)
 	ev.Parallel(maxB/1000+1, func(wk, item int) {
 		for n := item * 1000; n < (item+1)*1000 && n <= maxB; n++ {
@@ -537,11 +550,15 @@ func runC20(r *ev.Run) {
 	})
 	// the I/O path with the real 32 MiB read buffer
 	fail := func(class string, c c20Case, msg string) { r.Fail(class, c, "%s", msg) }
-	files, ranges := c20FileFamily(ev.Pick(r, 100, 300), ev.Pick(r, 10, 24), []int{0, 1, 7}, []int{6249, 6250, 6251, 100001}, 0, fail, r.Expired)
+	files, ranges = c20FileFamily(ev.Pick(r, 100, 300), ev.Pick(r, 10, 24), []int{0, 1, 7}, []int{6249, 6250, 6251, 100001}, 0, fail, r.Expired)
 	// a file larger than the read buffer: lines straddle the refill
 	c20BigFile(r)
 	// the refill logic with small read buffers (overlay builds of the same harness)
-	refill := c20RefillRuns(r)
+	refill = c20RefillRuns(r)
+	return
+}
+
+func c20Summary(r *ev.Run, perms, points, parts *atomic.Int64, files, ranges, refill int64) {
 
 	r.Sample(map[string]any{"kind": "shuffle", "n": 257, "seeds": len(c20Seeds)})
 	r.Sample(map[string]any{"kind": "file", "layout": "blank-middle", "n": 37, "epochs": []int{0, 1, 7}})
